@@ -107,3 +107,196 @@ def rule_dense_table(ctx):
     else:
         r.bad(Finding("dense-table", "_DENSE_EIG_METHODS", f"missing keys {sorted(want - seen)}", where=m.relpath, operand="total"))
     return r
+
+
+# ---------------------------------------------------------------------------
+# selection / sorting permutations
+# ---------------------------------------------------------------------------
+
+LINALG_MODULES = (
+    "quimb.linalg.base_linalg", "quimb.linalg.numpy_linalg", "quimb.linalg.scipy_linalg",
+    "quimb.linalg.autoblock", "quimb.linalg.rand_linalg", "quimb.linalg.approx_spectral",
+    "quimb.linalg.slepc_linalg",
+)
+_SHAPE_ONLY = {"size", "shape", "ndim", "dtype"}
+
+
+def _own_walk(node):
+    todo = [node]
+    while todo:
+        n = todo.pop()
+        yield n
+        for c in ast.iter_child_nodes(n):
+            if not isinstance(c, (ast.FunctionDef, ast.AsyncFunctionDef, ast.Lambda)):
+                todo.append(c)
+
+
+def _value_names(e):
+    """names used by value in e (a name that only appears as x.size / x.shape / len(x) does not count)."""
+    shape_only = set()
+    for n in ast.walk(e):
+        if isinstance(n, ast.Attribute) and n.attr in _SHAPE_ONLY and isinstance(n.value, ast.Name):
+            shape_only.add(id(n.value))
+        if isinstance(n, ast.Call) and isinstance(n.func, ast.Name) and n.func.id == "len":
+            for a in n.args:
+                if isinstance(a, ast.Name):
+                    shape_only.add(id(a))
+    return {n.id for n in ast.walk(e) if isinstance(n, ast.Name) and id(n) not in shape_only}
+
+
+def _argsort_subject(ctx, f, e, depth=0):
+    """If expression e is (a slice of) an argsort of values, return the set of caller-side names whose *values*
+    determine the order; None if e is not a value-determined permutation; () if not a permutation at all."""
+    while isinstance(e, ast.Subscript):
+        e = e.value
+    if not isinstance(e, ast.Call):
+        return ()
+    fname = getattr(e.func, "attr", None) or getattr(e.func, "id", None)
+    if fname == "argsort":
+        if isinstance(e.func, ast.Attribute) and not (isinstance(e.func.value, ast.Name) and e.func.value.id in ("np", "numpy", "xp")) and not e.args:
+            return _value_names(e.func.value)  # x.argsort()
+        return _value_names(e.args[0]) if e.args else None
+    callee = None
+    if isinstance(e.func, ast.Name):
+        callee = ctx.prog.lookup(f.module, e.func.id)
+    elif dotted(e.func):
+        callee = ctx.prog.resolve_expr(f.module, e.func)
+    if isinstance(callee, FuncInfo) and depth < 3 and callee.module.name in LINALG_MODULES:
+        rets = [n for n in _own_walk(callee.node) if isinstance(n, ast.Return) and n.value is not None]
+        if not rets:
+            return ()
+        subs = [_argsort_subject(ctx, callee, rt.value, depth + 1) for rt in rets]
+        if all(s == () for s in subs):
+            return ()  # not a selector helper at all
+        # a selector with a return that is no argsort selects, on that path, without looking at the values
+        subs = [None if s == () else s for s in subs]
+        if any(s is None for s in subs):
+            return None
+        # map callee params back to caller expressions
+        out = set()
+        pos = list(callee.posparams)
+        for s in subs:
+            hit = False
+            for k, a in enumerate(e.args):
+                if k < len(pos) and pos[k] in s:
+                    out |= _value_names(a)
+                    hit = True
+            for kw in e.keywords:
+                if kw.arg in s:
+                    out |= _value_names(kw.value)
+                    hit = True
+            if not hit:
+                return None
+        return out
+    return ()
+
+
+def rule_perm_provenance(ctx):
+    r = RuleResult(
+        "perm-provenance",
+        "every index array used to select or reorder eigen/singular values in quimb/linalg is (a slice of) an argsort "
+        "of the *values* of the array it permutes (followed through selector helpers such as sort_inds, every return "
+        "of which must itself be such an argsort); and all arrays returned together with a permuted array are "
+        "permuted by the same index in the same block (values never reordered without their vectors)",
+    )
+    n = 0
+    for modname in LINALG_MODULES:
+        mod = ctx.prog.modules.get(modname)
+        if mod is None:
+            continue
+        for f in mod.all_functions:
+            if f.is_alias or isinstance(f.node, ast.Lambda):
+                continue
+            perms = {}
+            for a in _own_walk(f.node):
+                if isinstance(a, ast.Assign) and len(a.targets) == 1 and isinstance(a.targets[0], ast.Name):
+                    s = _argsort_subject(ctx, f, a.value)
+                    if s != ():
+                        perms.setdefault(a.targets[0].id, []).append((a, s))
+            if not perms:
+                continue
+            # returned-together groups
+            groups = []
+            for rt in _own_walk(f.node):
+                if isinstance(rt, ast.Return) and isinstance(rt.value, ast.Tuple):
+                    g = set()
+                    for el in rt.value.elts:
+                        x = el
+                        while isinstance(x, ast.Call) and len(x.args) == 1 and not x.keywords:
+                            x = x.args[0]
+                        while isinstance(x, ast.Subscript):
+                            x = x.value
+                        if isinstance(x, ast.Name):
+                            g.add(x.id)
+                    if len(g) > 1:
+                        groups.append(g)
+            parents = {}
+            fields = {}
+            for p_ in _own_walk(f.node):
+                for fld, val in ast.iter_fields(p_):
+                    for c in (val if isinstance(val, list) else [val]):
+                        if isinstance(c, ast.AST):
+                            parents[c] = p_
+                            fields[c] = fld
+            for iname, defs in perms.items():
+                for a, subj in defs:
+                    n += 1
+                    where = f"{f.module.relpath}:{a.lineno}"
+                    construct = f.qualname
+                    # arrays permuted with this index after the definition, in the same block
+                    blk = parents.get(a)
+                    body = None
+                    for fld in ("body", "orelse", "finalbody"):
+                        if isinstance(getattr(blk, fld, None), list) and a in getattr(blk, fld):
+                            body = getattr(blk, fld)
+                    later = body[body.index(a) + 1:] if body else []
+                    permuted = set()
+                    for st in later:
+                        stop = False
+                        for x in _own_walk(st):
+                            if isinstance(x, ast.Subscript) and isinstance(x.value, ast.Name):
+                                idx = x.slice.elts if isinstance(x.slice, ast.Tuple) else [x.slice]
+                                if any(isinstance(i_, ast.Name) and i_.id == iname for i_ in idx) and isinstance(x.ctx, ast.Load):
+                                    permuted.add(x.value.id)
+                            if isinstance(x, ast.Assign) and any(isinstance(t, ast.Name) and t.id == iname for t in x.targets):
+                                stop = True
+                        if stop:
+                            break
+                    if not permuted:
+                        n -= 1
+                        continue
+                    if subj is None:
+                        r.bad(Finding("perm-provenance", construct,
+                                      f"`{iname} = {src_of(a.value)[:60]}` selects/reorders {sorted(permuted)} through a helper with a return "
+                                      "that does not look at the values (positions only): correct only if the solver already returned them in order",
+                                      where=where, operand=f"{iname}:positional"))
+                        continue
+                    if not (subj & permuted):
+                        r.bad(Finding("perm-provenance", construct,
+                                      f"`{iname}` is an argsort of {sorted(subj)} but is applied to {sorted(permuted)}: the order is not determined by the array being selected from",
+                                      where=where, operand=f"{iname}:foreign-key"))
+                        continue
+                    missing = set()
+                    for g in groups:
+                        if g & permuted:
+                            missing |= (g - permuted)
+                    # a member defined only after this block (e.g. built from the permuted ones) is not a companion
+                    anc = set()
+                    q = a
+                    while q in parents:
+                        anc.add((id(parents[q]), fields[q]))
+                        q = parents[q]
+                    defined_before = {
+                        t.id for x in _own_walk(f.node)
+                        if isinstance(x, ast.Assign) and x.lineno <= a.lineno and (id(parents.get(x)), fields.get(x)) in anc
+                        for t0 in x.targets for t in ast.walk(t0) if isinstance(t, ast.Name)
+                    } | set(f.params)
+                    missing &= defined_before
+                    if missing:
+                        r.bad(Finding("perm-provenance", construct,
+                                      f"{sorted(permuted)} reordered by `{iname}` but {sorted(missing)}, returned together with it, is not: values and vectors no longer correspond",
+                                      where=where, operand=f"{iname}:companions"))
+                        continue
+                    r.ok(f"{construct}[{iname}]", sample={"function": f.qualname, "index": f"{iname} = {src_of(a.value)[:50]}", "keyed on": sorted(subj & permuted), "permutes": sorted(permuted)})
+    r.floor(n, 7, "selection / sorting permutations")
+    return r
